@@ -96,6 +96,11 @@ def queries(tier):
                     env=["env_alloc.c", "env_misc.c", "env_sync.c", "env_aio.c", "env_msg.c", "env_pipe.c", "env_idmap.c", "env_libc.c"],
                     defs={"OP": 0, "NB": 12, "FROM": 0, "UNFINISHED": 1}, cdefs=["-DENV_MSG_CAP=24"], unwind=30, timeout=120, concrete=True, group="~c11/udp_rx.c#unfinished",
                     params={"entry_point": "udp transport p_init, then the reaper's p_close, p_stop, p_fini", "failing_allocation": "pipe id / protocol per-pipe state in pipe_create"}))
+    # creation of a dialer / listener with one step failing (object, URL copy, id): nothing is left behind, in particular no freed endpoint on the socket's list (finding F30)
+    for q in C10.ep_create_queries(tier):
+        if q.defs.get("FAILSTEP") in (1, 2, 5):
+            q.group = "~" + q.group + "#c20"
+            qs.append(q)
     # stream transport listeners: resource exhaustion in the accept path (stream accept or pipe allocation) costs one connection, not the listener
     from props import C14
     for q in C14.tran_listener_queries(tier):
